@@ -67,11 +67,22 @@ impl Scenario {
             "d1/d2"
         }
     }
+    /// (source name, output name) of file f. The three documented name shapes and dotted stems rotate over
+    /// the files of a project, so that the route from an include argument / input name to the source is part
+    /// of every schedule-level scenario.
+    pub fn names(&self, f: usize) -> (String, String) {
+        match (self.alias / 3 + 2 * f + f / 3) % 4 {
+            0 => (format!("f{f}.txt.txtpp"), format!("f{f}.txt")),
+            1 => (format!("f{f}.txtpp.txt"), format!("f{f}.txt")),
+            2 => (format!("f{f}.v2.txtpp.txt"), format!("f{f}.v2.txt")),
+            _ => (format!("f{f}.v2.txt.txtpp"), format!("f{f}.v2.txt")),
+        }
+    }
     pub fn src(&self, f: usize) -> String {
-        format!("{}/f{}.txt.txtpp", self.dir_of(f), f)
+        format!("{}/{}", self.dir_of(f), self.names(f).0)
     }
     pub fn out(&self, f: usize) -> String {
-        format!("{}/f{}.txt", self.dir_of(f), f)
+        format!("{}/{}", self.dir_of(f), self.names(f).1)
     }
     pub fn dir_name(&self, d: usize) -> &'static str {
         if d == self.nf + 1 {
@@ -82,7 +93,7 @@ impl Scenario {
     }
     fn rel(&self, from: usize, to: usize) -> String {
         // path of to's output relative to from's directory
-        let name = format!("f{}.txt", to);
+        let name = self.names(to).1;
         match (self.dir_of(from), self.dir_of(to)) {
             (a, b) if a == b => name,
             ("d1", _) => format!("d2/{name}"),
